@@ -1,15 +1,6 @@
 #!/bin/bash
 # Evaluates every kept seeded change (seeded/<id>/patch.diff) against the quick checks named in its meta.json.
+# usage: tools/seed_eval_all.sh [parallel jobs, default 1] [first id to evaluate]   (sort the output lines afterwards)
 cd /verif
-for d in seeded/*/; do
-  id=$(basename $d)
-  [ -f $d/meta.json ] || continue
-  checks=$(python3 -c "import json;print(' '.join(json.load(open('$d/meta.json'))['caught_by_quick_checks']))")
-  out=$(tools/seed_eval.sh $d/patch.diff $checks 2>&1)
-  if echo "$out" | grep -q "PATCH DOES NOT APPLY"; then echo "$id: PATCH DOES NOT APPLY"; continue; fi
-  res=""
-  for c in $checks; do
-    if echo "$out" | grep -q "VIOLATION property=$c"; then res="$res $c:caught"; else res="$res $c:MISSED"; fi
-  done
-  echo "$id:$res"
-done
+P=${1:-1}; from=${2:-}
+ls seeded | grep -v EVAL_ALL | awk -v f="$from" 'f=="" || $0>=f' | xargs -P "$P" -n 1 tools/seed_eval_one.sh
